@@ -169,13 +169,17 @@ def Spec.expect (s : Spec) (x : Rat) : Option (Rat × Rat) :=
       let y := specLinear s.p.center w 0 s.ymax r
       let d := w - 1
       let enum := er + (absR r + absR s.p.center + 1) * p51
-      let tol := if d = 0 then 0 else s.ymax * (enum / d + p49 * (absR (r - (s.p.center - 1/2)) / d + 1))
+      -- width 1: a step at c − 1/2; a rescaled value within its own rounding error of the step may land on either side
+      let tol := if d = 0 then (if absR (r - (s.p.center - 1/2)) ≤ enum then s.ymax else 0)
+        else s.ymax * (enum / d + p49 * (absR (r - (s.p.center - 1/2)) / d + 1))
       some (y, tol)
     | .linearExact =>
       let w := if s.p.width < 0 then 0 else s.p.width
       let y := specLinearExact s.p.center w 0 s.ymax r
       let enum := er + (absR r + absR s.p.center + 1) * p51
-      let tol := if w = 0 then 0 else s.ymax * (enum / w + p49 * (absR (r - s.p.center) / w + 1))
+      -- width 0: a step at c (same remark)
+      let tol := if w = 0 then (if absR (r - s.p.center) ≤ enum then s.ymax else 0)
+        else s.ymax * (enum / w + p49 * (absR (r - s.p.center) / w + 1))
       some (y, tol)
 
 /-- SIGMOID (C.11.2.1.3.1, `y = ymax / (1 + exp(-4 (x - c) / w))`) is not rational: the oracle
